@@ -93,7 +93,7 @@ func c09Exit(p *chk.Prog, r *chk.Report) {
 	okIPs := false
 	if lbIPs != nil {
 		for _, rs := range f.RangeLoops(func(e ast.Expr) bool { return f.MatchWith("S.Status.LoadBalancer.Ingress", e, chk.H("S", isParam(f, "svc"))) != nil }) {
-			isApp := f.IsAssignPat("L", "append(L, IP)", chk.H("L", f.IsObj(lbIPs)), chk.H("IP", definedBy(g, "net.ParseIP(S.Status.LoadBalancer.Ingress[I].IP)", chk.H("S", isParam(f, "svc")))))
+			isApp := f.IsAssignPat("L", "append(L, IP)", chk.H("L", f.IsObj(lbIPs)), chk.H("IP", definedBy(g, "net.ParseIP(EL.IP)", chk.H("EL", rangeVal(f, rs)))))
 			// an iteration either appends or leaves the function through deleteBalancer
 			okIPs = !loopSkipsWithout(g, rs, isApp, chk.NoGuard)
 		}
@@ -207,7 +207,7 @@ func c09Delete(p *chk.Prog, r *chk.Report) {
 		ok := false
 		for _, rs := range f.RangeLoops(func(e ast.Expr) bool { return f.MatchNew("RECV.protocols", e) != nil }) {
 			guard := g.GPat(false, "RECV.announced[P][N]", chk.H("P", rangeVal(f, rs)), chk.H("N", name))
-			if o, _ := g.LoopForall(rs, guard); o && g.AfterLoop(s, rs) {
+			if forallBefore(f, g, rs, guard, s) == "" {
 				ok = true
 			}
 		}
@@ -303,7 +303,7 @@ func c09Resync(p *chk.Prog, r *chk.Report) {
 			ok := false
 			for _, rs := range f.RangeLoops(func(e ast.Expr) bool { return f.MatchNew("RECV.svcIPs", e) != nil }) {
 				guard := g.GPat(false, `P == ""`, chk.H("P", definedBy(g, "poolFor(C.Pools, IP)", chk.H("C", cfg), chk.H("IP", rangeVal(f, rs)))))
-				if o, _ := g.LoopForall(rs, guard); o && g.AfterLoop(s, rs) {
+				if forallBefore(f, g, rs, guard, s) == "" {
 					ok = true
 				}
 			}
@@ -311,7 +311,7 @@ func c09Resync(p *chk.Prog, r *chk.Report) {
 			ok2 := false
 			for _, rs := range f.RangeLoops(func(e ast.Expr) bool { return f.MatchNew("RECV.protocolHandlers", e) != nil }) {
 				guard := g.GErrNil(true, "H.SetConfig(_, C)", chk.H("H", rangeVal(f, rs)), chk.H("C", cfg))
-				if o, _ := g.LoopForall(rs, guard); o && g.AfterLoop(s, rs) {
+				if forallBefore(f, g, rs, guard, s) == "" {
 					ok2 = true
 				}
 			}
@@ -354,17 +354,35 @@ func c09Resync(p *chk.Prog, r *chk.Report) {
 		g := ic.Graph()
 		old := definedBy(g, "M[N.Name]", chk.H("M", isParamIdx(ic, 0)), chk.H("N", isParamIdx(ic, 1)))
 		nw := isParamIdx(ic, 1)
-		for _, pred := range []string{"IsNetworkUnavailable", "IsNodeExcludedFromBalancers"} {
-			es := g.EdgesImplying(g.GPat(true, "k8snodes."+pred+"(O) != k8snodes."+pred+"(N)", chk.H("O", old), chk.H("N", nw)))
-			ok := len(es) == 1
-			for _, e := range es {
-				w := g.BranchAlways(e, func(n ast.Node) bool {
-					rs, okk := n.(*ast.ReturnStmt)
-					return okk && len(rs.Results) == 1 && ic.IsConstBool(rs.Results[0], true)
-				})
-				ok = ok && !w.Found
+		// the stored node is unknown (comma-ok of the map lookup is false)
+		unknown := chk.GBool(false, func(e ast.Expr) bool {
+			id, ok := ast.Unparen(e).(*ast.Ident)
+			if !ok {
+				return false
 			}
-			x.Check("isNodeAvailableChanged:"+pred, ic.Pos(), ok, "", "a change of "+pred+" between the stored and the new node is not reported")
+			rhs, idx := g.DefOf(id, g.FactSite(id))
+			return rhs != nil && idx == 1 && ic.MatchWith("M[N.Name]", rhs, chk.H("M", isParamIdx(ic, 0)), chk.H("N", isParamIdx(ic, 1))) != nil
+		})
+		for _, pred := range []string{"IsNetworkUnavailable", "IsNodeExcludedFromBalancers"} {
+			same := g.GPat(false, "k8snodes."+pred+"(O) != k8snodes."+pred+"(N)", chk.H("O", old), chk.H("N", nw))
+			// a result of false needs the attribute unchanged (or a node that was not known before)
+			need := chk.GOr(unknown, same)
+			ok, n := true, 0
+			for _, rt := range g.Returns() {
+				rr := retResults(rt)
+				if len(rr) != 1 {
+					continue
+				}
+				n++
+				switch {
+				case ic.IsConstBool(rr[0], true):
+				case ic.IsConstBool(rr[0], false):
+					ok = ok && g.Dominated(rt, need)
+				default:
+					ok = ok && g.DominatedAssuming(rt, rr[0], false, need)
+				}
+			}
+			x.Check("isNodeAvailableChanged:"+pred, ic.Pos(), ok && n > 0 && len(g.FindPat("k8snodes."+pred+"(O)", chk.H("O", old))) > 0, "", "a change of "+pred+" between the stored and the new node is not reported")
 		}
 	}
 }
